@@ -333,10 +333,11 @@ CANARIES = [
      "target": "praatio.data_classes.textgrid.Textgrid.eraseRegion",
      "old": "start, end, constants.EraseCollision.TRUNCATE, doShrink", "new": "start, end, constants.EraseCollision.CATEGORICAL, doShrink",
      "config": ["k=1,doShrink=False"]},
-    {"name": "tiernew-drops-entries", "props": ["C13", "C05"], "file": "praatio/data_classes/textgrid_tier.py",
+    {"name": "tiernew-keeps-narrow-span", "props": ["C13", "C05"], "file": "praatio/data_classes/textgrid_tier.py",
      "target": "praatio.data_classes.textgrid_tier.TextgridTier.new",
-     "old": "            entries = copy.deepcopy(self.entries)", "new": "            entries = []",
-     "config": ["kind=interval,span=default"]},
+     "old": "        return type(self)(name, entries, minTimestamp, maxTimestamp)",
+     "new": "        t = type(self)(name, entries, minTimestamp, maxTimestamp)\n        t.maxTimestamp = maxTimestamp\n        return t",
+     "config": ["kind=interval,span=sym"]},
     {"name": "tgnew-shallow", "props": ["C13"], "file": "praatio/data_classes/textgrid.py",
      "target": "praatio.data_classes.textgrid.Textgrid.new",
      "old": "        return copy.deepcopy(self)", "new": "        return copy.copy(self)", "config": ["k=1"]},
